@@ -293,6 +293,12 @@ func (ps *PairShuffle) Verify(
 	P := grp.Point() // scratch
 	Q := grp.Point() // scratch
 	for i := range k {
+		// the simple k-shuffle of step 6 must be about R_i = A_i + lambda*B_i
+		// and S_i = C_i + lambda*D_i, not about vectors chosen by the prover
+		if !P.Add(p1.A[i], Q.Mul(v4.Zlambda, B[i])).Equal(ps.pv6.p0.X[i]) ||
+			!P.Add(p1.C[i], Q.Mul(v4.Zlambda, p3.D[i])).Equal(ps.pv6.p0.Y[i]) {
+			return errors.New("invalid PairShuffleProof")
+		}
 		Phi1 = Phi1.Add(Phi1, P.Mul(p5.Zsigma[i], Xbar[i])) // (31)
 		Phi1 = Phi1.Sub(Phi1, P.Mul(v2.Zrho[i], X[i]))
 		Phi2 = Phi2.Add(Phi2, P.Mul(p5.Zsigma[i], Ybar[i])) // (32)
